@@ -462,6 +462,9 @@ def run_c19(ctx):
                         if not ctx.thorough and (hash((sig, nw, cs, mode, d)) % 3):
                             continue
                         cases.append((sig, nw, cs, mode, d))
+    # a server that has been IDLE for a while (nothing but poll timeouts) must still react at once
+    cases.append((signal.SIGTERM, 2, False, "idle", 7.0))
+    cases.append((signal.SIGINT, 1, True, "idle", 7.0))
     cases.append((signal.SIGTERM, 4, False, "flood", 0.2))
     if ctx.thorough:
         cases += [(signal.SIGINT, 1, False, "flood", 0.2), (signal.SIGTERM, 16, True, "flood", 0.3)]
@@ -473,6 +476,8 @@ def run_c19(ctx):
         if cs:
             settings["client_stats"] = "on"; settings["persistence_directory"] = workdir
             si = (None, 10, 1)[(int(sig) + nw + int(delay * 100)) % 3]      # None: the documented default, 600 s
+            if delay >= 5:
+                si = None
             if si is not None:
                 settings["status_interval"] = si
         srv = Server(settings, workdir=workdir)
